@@ -275,10 +275,10 @@ theorem putByObj_wf (name data md5 : Bytes) (h32 : Nat) (hmd5 : md5.length = 16)
               simp only [hrp, if_true]
               rcases hsound with e | ⟨_, rlt, _, rk, _⟩
               · omega
-              · obtain ⟨img1, r1, hrm, hw1, hn1', hnum⟩ := removeByIdx_wf hw r (by omega)
+              · obtain ⟨img1, r1, hrm, hw1, hn1', hnum⟩ := removeByIdx_wf hw r
                 rw [hrm]
                 simp only []
-                have := (hnum hrp (by simp [Slot.isKey]; omega)).2
+                have := (hnum hrp (by omega) (by simp [Slot.isKey]; omega)).2
                 obtain ⟨img2, r2, h2, hw2, hn2⟩ := ih img1 hw1 (by omega)
                 exact ⟨img2, r2, h2, hw2, by omega⟩
             · simp only [hrp, if_false]
